@@ -1610,12 +1610,14 @@ def oracle_c01(case, driver, r):
     else:
         pos = dict((n, k) for k, n in enumerate(ro))
         allnodes = set(r.graph_edges) | set(d for v in r.graph_edges.values() for d in v)
-        if len(ro) != len(pos) or set(ro) != allnodes:
+        # every component of the graph exactly once; dependencies that are not keys of the graph (they do not take part
+        # in the evaluation) may or may not be listed -- the property does not say
+        if len(ro) != len(pos) or not set(r.graph_edges) <= set(ro) or not set(ro) <= allnodes:
             out.append(V("C01.order", "run_order-not-a-permutation", "run_order=%s nodes=%s" % (ro, sorted(allnodes))))
         else:
             for k, deps in r.graph_edges.items():
                 for d in deps:
-                    if pos[d] > pos[k]:
+                    if d in pos and pos[d] > pos[k]:
                         out.append(V("C01.order", "run_order-dependency-after-dependent",
                                      "%s is ordered before its dependency %s: %s" % (k, d, ro)))
                         break
